@@ -225,6 +225,26 @@ CHECKS = {
         "build is described in DESIGN.md).",
    technique="TLA+ file/field and session enumeration; cases applied to real files and replayed into the "
              "sanitizer-built naken_util; TLC trace acceptor"),
+ "C18": dict(
+   category="model_checking",
+   text="Listing.tla models the listing as a function of the program layout: where each statement's bytes go (org, label, "
+        "instruction, data, resb, macro call, .repeat of instructions/data/both, .include with and without .list), the "
+        "per-instruction entries list_output must produce, the data-section walk of main() transcribed loop iteration by "
+        "loop iteration, and the clauses ListedBytesTrue, EveryByteListed, EntriesTileCode, RowsAreData, TextIsDisasm, "
+        "SymbolsTrue, LowHighTrue. MCListing (TLC, bytes per address 1/2/4) checks on every program of up to 3 (thorough 4) "
+        "statements that the walk, step by step, dumps exactly the data bytes at their true addresses and that the "
+        "reference listing satisfies every clause. GenListing (TLC) enumerates statement sequences; each chosen shape is "
+        "rendered for 64 CPUs with instructions of that CPU (comparison corpus, or decoder output the assembler takes "
+        "back), assembled by the real naken_asm -l -type hex; nv/lst.py splits the .lst into fields, the real decoder is "
+        "run on the bytes at every listed address, and TraceListing (TLC) decodes the hex file with ObjFormats, lays the "
+        "program out with the model and evaluates every clause; canaries (one listing field changed) must be rejected.",
+   design_ref="DESIGN.md 4 C18",
+   note="Instructions come from a pool whose decoder length equals the assembled length (decoder/encoder disagreements "
+        "are C01/C06/C07/C08 findings); ps2_ee_vu0/vu1, tms1000, tms1100 have no pool; addresses stay below 2^24; the "
+        "[import] lines of linked objects are not covered.",
+   technique="TLA+ model of the listing (layout, per-instruction entries, data-section walk) model-checked with TLC; "
+             "TLC-enumerated program shapes assembled by the real naken_asm -l; TLC trace acceptor over listing fields "
+             "and the decoded hex output"),
  "C19": dict(
    category="model_checking",
    text="Util.tla models naken_util's memory commands: a byte memory, CPU address units (1/2/4 bytes per address), byte "
